@@ -178,6 +178,7 @@ func init() {
 			return nil
 		},
 		rtPkg + "Symbolic": func(fr *frame, a []value) value { return true },
+		rtPkg + "ClockReadings": func(fr *frame, a []value) value { return []value(nil) },
 		rtPkg + "Thorough": func(fr *frame, a []value) value { return fr.i.thorough },
 		rtPkg + "Replace": func(fr *frame, a []value) value {
 			name := mustConcStr(a[0], "Replace name")
